@@ -582,7 +582,9 @@ pub fn gen_teardown(rng: &mut Rng, pres: &[Option<Obs>; 2]) -> Vec<Op> {
             0 => {}
             1 => ops.push(Op { target: t, kind: OpKind::Clear, fuse: None }),
             2 => {
-                for _ in 0..n.min(64) + 1 {
+                // (a step on a cache of tens of thousands of entries costs a full observation)
+                let k = if n > 1024 { 4 } else { n.min(64) + 1 };
+                for _ in 0..k {
                     ops.push(Op { target: t, kind: OpKind::RemoveLru, fuse: None });
                 }
             }
